@@ -361,6 +361,56 @@ func genC03(r *Run) {
 			r.Fail("panic:BroadcastRawUDPConn.ReadFrom", hx(f), "raw frame reader panicked")
 		}
 	}
+	// raw frames, swept: every header-length nibble x frame lengths around the header sizes x total-length fields at
+	// their extremes (0, 1, just below / at / above the header and frame lengths, 0xffff) x UDP length fields likewise
+	{
+		bound := [][]byte{{1}, nil, {0, 68}, {2, 64}}
+		k := 0
+		for ihl := 0; ihl <= 15; ihl++ {
+			for _, flen := range []int{0, 1, 19, 20, 21, 27, 28, 29, 36, 40, 59, 60, 61, 67, 68, 69, 72, 100} {
+				for _, tl := range []int{0, 1, 19, 20, ihl * 4, ihl*4 + 7, ihl*4 + 8, ihl*4 + 9, flen - 1, flen, flen + 1, 0xffff} {
+					for _, ul := range []int{-1, 0, 7, 8, 9, 0xffff} {
+						if tl < 0 {
+							continue
+						}
+						f := make([]byte, flen)
+						for i := range f {
+							f[i] = byte(r.Rng.Intn(256))
+						}
+						if flen > 0 {
+							f[0] = 0x40 | byte(ihl)
+						}
+						if flen > 3 {
+							f[2], f[3] = byte(tl>>8), byte(tl)
+						}
+						if flen > 9 {
+							f[6], f[7] = 0, 0
+							f[9] = 17
+						}
+						if h := ihl * 4; h >= 20 && flen >= h+8 {
+							f[h+2], f[h+3] = 0, 68
+							if ul >= 0 {
+								f[h+4], f[h+5] = byte(ul>>8), byte(ul)
+							} else {
+								n := flen - h
+								f[h+4], f[h+5] = byte(n>>8), byte(n)
+							}
+						}
+						args := append(append([][]byte{}, bound...), f)
+						if RunGo(Case{eRawRead, args}) == "panic" {
+							r.Fail("panic:BroadcastRawUDPConn.ReadFrom", hx(f), "raw frame reader panicked")
+						}
+						if k%11 == 0 {
+							r.Add(eRawRead, args...)
+						}
+						k++
+						obs++
+					}
+				}
+			}
+		}
+		r.Count(fmt.Sprintf("raw-frame-sweep=%d", k))
+	}
 	_ = net.IPv4zero
 	r.Extra["observer_calls"] = obs
 	r.Extra["oracle_evaluations"] = obs
